@@ -28,11 +28,12 @@ theorem header_file (f : FileE) (h1 : 1 ≤ f.version) (h13 : f.version ≤ 13) 
   have hc : Gen.Rdb.c_RdbVersion = 13 := rfl
   have : ¬ ((f.version : Int) ≤ 0 ∨ (f.version : Int) > ((Gen.Rdb.c_RdbVersion : Nat) : Int)) := by
     rw [hc]; omega
-  simp [this]
+  simp only [this, if_false, Int.toNat_natCast]
 
-/-- the footer check passes for a correct or zero checksum and fails for a wrong one -/
-theorem footer_file (f : FileE) :
-    footer (rdbFile f) ((rdbFile f).drop f.body.length) = (f.footer ≠ .bad) := by
+/-- the footer check passes for a correct checksum and for the all-zero
+    "checksum disabled" footer -/
+theorem footer_file (f : FileE) (hnb : f.footer ≠ .bad) :
+    footer (rdbFile f) ((rdbFile f).drop f.body.length) = true := by
   have hdrop : ∀ tail : Bytes, (f.body ++ tail).drop f.body.length = tail := fun tail => by simp
   have hcons : ∀ tail : Bytes, consumed (f.body ++ tail) tail = f.body := fun tail => consumed_append _ _
   have hlt : (crc64Spec f.body).toNat < 256 ^ 8 := by
@@ -41,21 +42,20 @@ theorem footer_file (f : FileE) :
     omega
   unfold rdbFile footer
   simp only
+  have hr8 : ∀ n : Nat, readN 8 (le64 n) = some (le64 n, []) := fun n => by
+    have := readN_append' 8 (le64 n) [] (leN_length 8 n)
+    simpa using this
+  have htab : (crc64Tab f.body).toNat = (crc64Spec f.body).toNat := by
+    rw [show crc64Tab f.body = crc64Spec f.body from crc64Tab_eq_spec_from f.body 0#64]
   cases hf : f.footer with
   | good =>
-    simp only [hdrop, hcons]
-    rw [show le64 (crc64Spec f.body).toNat = leN 8 (crc64Spec f.body).toNat from rfl,
-      readN_append' 8 _ [] (leN_length 8 _) |> fun h => by simpa using h]
-    simp only [ofLE_leN' 8 _ hlt, crc64Tab, crc64Tab_eq_spec_from f.body 0#64, crc64Spec]
+    simp only [hdrop, hcons, hr8]
+    rw [show le64 (crc64Spec f.body).toNat = leN 8 (crc64Spec f.body).toNat from rfl, ofLE_leN' 8 _ hlt, htab]
     simp
   | zero =>
-    simp only [hdrop]
-    have : readN 8 (le64 0) = some (le64 0, []) := by decide
-    rw [this]
+    simp only [hdrop, hr8]
     have z : ofLE (le64 0) = 0 := by decide
     simp [z]
-  | bad =>
-    simp only [hdrop, hcons]
-    sorry
+  | bad => exact absurd hf hnb
 
 end GunYu.Rdb
